@@ -111,6 +111,42 @@ def gen_literal_keys(rng, t, pool):
     return lit
 
 
+def gen_literal_entries(rng, t, pool, vt):
+    """Map literal entries. Besides the key patterns of gen_literal_keys, a repeated key gets values that are
+    ascending / equal / descending (a check that compares whole entries instead of keys would accept the first)."""
+    keys = gen_literal_keys(rng, t, pool)
+    ents = [(k, vt.gen(rng)) for k in keys]
+    if ents and rng.random() < 0.45:
+        i = rng.randrange(len(ents))
+        k = ents[i][0]
+        if vt.is_int:
+            lo = rng.randrange(-5, 5)
+            hi = lo + rng.randrange(1, 4)
+        else:
+            n = 4 if vt.ticket else len(vt.lits)
+            lo = rng.randrange(0, n - 1)
+            hi = rng.randrange(lo + 1, n)
+        a, b = rng.choice([(lo, hi), (lo, hi), (lo, lo), (hi, lo)])
+        ents[i:i + 1] = [(k, a), (k, b)]
+    return ents
+
+
+def gen_literal_script(rng, t, pool, n, is_map, vt):
+    """a history made of literal pushes (and a few observers)"""
+    out = []
+    for _ in range(n):
+        k = rng.random()
+        if k < 0.75:
+            out.append(('push', gen_literal_entries(rng, t, pool, vt) if is_map else gen_literal_keys(rng, t, pool)))
+        elif k < 0.85:
+            out.append(('size',))
+        elif k < 0.95:
+            out.append(('iter',))
+        else:
+            out.append(('update', rng.choice(pool), vt.gen(rng)) if is_map else ('update', rng.choice(pool), True))
+    return out
+
+
 def gen_set_script(rng, t, pool, n):
     out = []
     for _ in range(n):
@@ -159,7 +195,7 @@ def gen_map_script(rng, t, pool, n, vt=V.VT_INT):
         elif k < 0.92:
             out.append(('mapconst', z()))
         else:
-            out.append(('push', [(kk, z()) for kk in gen_literal_keys(rng, t, pool)]))
+            out.append(('push', gen_literal_entries(rng, t, pool, vt)))
     return out
 
 
@@ -401,7 +437,8 @@ def run(ctx: lib.Ctx) -> None:
                 'PUSH of literals (sorted, adjacent swap, duplicate, shuffled); the whole collection is read after every instruction. '
                 'Map values: int, or bool/string/bytes/list/set/map/option/pair with the pytezos-falsy literal (False, "", 0x, {}) drawn 45 % of the time, '
                 'or non-duplicable option (ticket string) values (updates, GET_AND_UPDATE, then a consuming MEM). '
-                'non-trivial = some key is touched by at least two updating instructions.')
+                'Every 4th history is a literal stream (pushes only; 45 % of map literals repeat a key with ascending / equal / descending values). '
+                'non-trivial = some key is touched by at least two updating instructions, or a pushed literal repeats a key.')
     n_hist = ctx.n(56, 360)
     max_len = ctx.n(30, 300)
     set_cases, map_cases, meta = [], [], []
@@ -431,9 +468,17 @@ def run(ctx: lib.Ctx) -> None:
                 # value type: int (arithmetic MAP bodies) 35 %, a type with a FALSY first literal 50 %, tickets (not duplicable) 15 %
                 k = rng.random()
                 vt = V.VT_INT if k < 0.35 else (V.VT_TICKET if k > 0.85 else rng.choice(V.VALUE_TYPES[1:]))
-                if vt.ticket:
+                if h % 8 == 3:                   # literal stream (tickets cannot be pushed)
+                    if vt.ticket:
+                        vt = rng.choice(V.VALUE_TYPES[:6])
+                    script = gen_literal_script(rng, t, pool, min(n, 14), True, vt)
+                elif vt.ticket:
                     n = min(n, 12)
-                script = gen_map_script(rng, t, pool, n, vt)
+                    script = gen_map_script(rng, t, pool, n, vt)
+                else:
+                    script = gen_map_script(rng, t, pool, n, vt)
+            elif h % 8 == 6:
+                script = gen_literal_script(rng, t, pool, min(n, 14), False, vt)
             else:
                 script = gen_set_script(rng, t, pool, n)
         ok, trace = lib.call(run_map_impl, t, pool, script, vt) if is_map else lib.call(run_set_impl, t, pool, script)
@@ -444,7 +489,8 @@ def run(ctx: lib.Ctx) -> None:
         for ins in script:
             if ins[0] in ('update', 'gau'):
                 touched[V.canon(ins[1])] = touched.get(V.canon(ins[1]), 0) + 1
-        ctx.case((t, is_map, tuple(map(repr, script))), nontrivial=any(c >= 2 for c in touched.values()),
+        dup_lit = any(ins[0] == 'push' and len({V.canon(e[0] if is_map else e) for e in ins[1]}) < len(ins[1]) for ins in script)
+        ctx.case((t, is_map, tuple(map(repr, script))), nontrivial=dup_lit or any(c >= 2 for c in touched.values()),
                  kind=f'{"map" if is_map else "set"}:{t[0]}:len{min(len(script) // 10 * 10, 300)}',
                  sample={'key_type': V.type_src(t), 'kind': 'map' if is_map else 'set', 'value_type': vt.src if is_map else None, 'instructions': [src_of(i, is_map) for i in script][:12],
                          'final_size': len(trace[-1][0])})
